@@ -13,6 +13,7 @@ NOTE = ("Trusted: go/types+go/ssa lowering, the SMT solvers, govc's SSA->SMT rul
 
 claimed = {
   "C01": ("4 C01", "WGSL binary operator -> SPIR-V opcode table of emitBinary proved against the SPIR-V instruction semantics for every (operator, scalar kind) on all eleven AddBinaryOp sites; opcode constants proved equal to the SPIR-V specification's numbers"),
+  "C08": ("4 C08", "validator control-flow rules: a break is reported only outside every loop and switch or directly in a loop's own continuing block, a continue only outside every loop or directly in its own continuing block; every nested block is validated in the context WGSL prescribes and the context is restored after every statement; selector tables (builtin, storage class, HLSL operator/type spellings, GLSL reachability) are total on their valid domains"),
   "C10": ("4 C10", "no run-time panic and termination proved for the whole WGSL lexer (every source string), the DXIL bit writer, the DXBC container serialiser and retail hash, ir.TypeSize, SPIR-V Build/WriteTo and swizzlePattern"),
   "C11": ("4 C11", "token positions: every token of every source string has line/column of its first character counted in characters, column >= 1; constant evaluator rejects zero divisors; swizzle component validation"),
   "C15": ("4 C15", "MSL bounds-check decision functions: an access is left unclamped only for a literal index below the static length; the clamp bound is length-1 of a non-empty object; policy selection per address space"),
@@ -32,7 +33,6 @@ claimed = {
 }
 
 not_applicable = {
-  "C08": "existence-of-success property over the whole pipeline: its per-function form needs 'the input is a valid program' as precondition, which only the un-contracted lowerer/validator establish; the total-table kernels overlap C01/C03/C17; the validator functions named by the statement keep context in maps and by-value recursion and were not brought to discharge (DESIGN.md section 5)",
   "C19": "relational (two-run) property of the whole front end; unary function contracts cannot state it (DESIGN.md section 5)",
 }
 
